@@ -58,8 +58,10 @@ pub enum ParamSem {
 pub struct SchemaDoc {
     pub root: String,
     pub types: Vec<TypeDef>,
-    /// raw extra top-level definitions placed before the types (scalars, extra directives, ...)
-    pub extra_defs: Vec<String>,
+    /// custom scalar definitions (`scalar X`), by name (duplicates possible in mutated documents)
+    pub scalars: Vec<String>,
+    /// extra directive definitions (`directive @x on FIELD`), by name
+    pub extra_directives: Vec<String>,
     pub include_directives: bool,
     /// rendered `schema { query: X }` blocks; normally exactly one with `root`
     pub schema_blocks: Vec<String>,
@@ -76,9 +78,11 @@ impl SchemaDoc {
         if self.include_directives {
             out.push_str(DIRECTIVES);
         }
-        for e in &self.extra_defs {
-            out.push_str(e);
-            out.push('\n');
+        for d in &self.extra_directives {
+            out.push_str(&format!("directive @{d} on FIELD\n"));
+        }
+        for sc in &self.scalars {
+            out.push_str(&format!("scalar {sc}\n"));
         }
         for t in &self.types {
             if let Some(d) = &t.doc {
@@ -568,7 +572,8 @@ pub fn gen_schema(c: &mut Choices<'_>, cfg: &SchemaGenConfig) -> SchemaDoc {
     let mut doc = SchemaDoc {
         root: root.clone(),
         types,
-        extra_defs: vec![],
+        scalars: vec![],
+        extra_directives: vec![],
         include_directives: true,
         schema_blocks: vec![root],
         sem,
@@ -721,6 +726,31 @@ pub fn validate_schema(s: &SchemaDoc) -> Vec<String> {
         return errs;
     }
     let root = &s.schema_blocks[0];
+    {
+        let mut dnames: Vec<&str> = vec![];
+        if s.include_directives {
+            dnames.extend(["filter", "tag", "output", "optional", "recurse", "fold", "transform"]);
+        }
+        dnames.extend(s.extra_directives.iter().map(|x| x.as_str()));
+        let mut dseen = BTreeSet::new();
+        for d in dnames {
+            if !dseen.insert(d) {
+                errs.push(format!("duplicate-directive:{d}"));
+            }
+        }
+        let mut sseen = BTreeSet::new();
+        for sc in &s.scalars {
+            if !sseen.insert(sc.as_str()) {
+                errs.push(format!("duplicate-scalar:{sc}"));
+            }
+            if SCALARS.contains(&sc.as_str()) || sc == "ID" {
+                errs.push(format!("builtin-redefined:{sc}"));
+            }
+            if s.types.iter().any(|t| &t.name == sc) {
+                errs.push(format!("duplicate-type:{sc}"));
+            }
+        }
+    }
     let mut seen = BTreeSet::new();
     for t in &s.types {
         if !seen.insert(t.name.clone()) {
